@@ -325,6 +325,13 @@ pub fn gen_case(prop: &str, thorough: bool, weak: bool, rng: &mut Rng) -> Case {
         "C17" => return crate::extras::gen_c17(rng, cfg, thorough),
         _ => {}
     }
+    if matches!(prop, "C02" | "C04" | "C10" | "C17") && rng.below(6) == 0 && prog.threads.len() > 1 {
+        // the Arc-only corner of the API (from_pointee, empty, Default, From, Debug/Display,
+        // ArcSwapAny::map, Cache::from), with real std Arcs, on this thread's node
+        let t = 1 + rng.below(prog.threads.len() as u64 - 1) as usize;
+        let at = rng.below(prog.threads[t].ops.len() as u64 + 1) as usize;
+        prog.threads[t].ops.insert(at, Op::StdArc { variant: rng.below(6) as u8 });
+    }
     Case { cfg, prog }
 }
 
@@ -410,7 +417,7 @@ fn gen_c08(rng: &mut Rng, weak: bool, thorough: bool) -> Case {
         prog: Program {
             conts,
             threads,
-            final_order: rng.below(4) as u8,
+            final_order: rng.below(16) as u8,
         },
     }
 }
@@ -466,7 +473,7 @@ fn gen_c11_readonly(rng: &mut Rng, cfg: RunCfg, thorough: bool) -> Case {
         prog: Program {
             conts,
             threads,
-            final_order: rng.below(4) as u8,
+            final_order: rng.below(16) as u8,
         },
     }
 }
@@ -509,7 +516,7 @@ fn gen_aba_storm(rng: &mut Rng, mut cfg: RunCfg, thorough: bool) -> Case {
         prog: Program {
             conts,
             threads,
-            final_order: rng.below(4) as u8,
+            final_order: rng.below(16) as u8,
         },
     }
 }
@@ -574,7 +581,7 @@ fn gen_guard_roundtrip(rng: &mut Rng, mut cfg: RunCfg, thorough: bool) -> Case {
         prog: Program {
             conts,
             threads,
-            final_order: rng.below(4) as u8,
+            final_order: rng.below(16) as u8,
         },
     }
 }
@@ -637,7 +644,7 @@ fn gen_c13_nested_wrap(rng: &mut Rng, mut cfg: RunCfg, thorough: bool) -> Case {
         prog: Program {
             conts,
             threads,
-            final_order: rng.below(4) as u8,
+            final_order: rng.below(16) as u8,
         },
     }
 }
